@@ -41,6 +41,9 @@ func genKnobs(r *simcore.Rand, crash bool) Knobs {
 	}
 	if k.Scheme == rawdb.HashScheme {
 		k.Archive = r.Bool(0.35)
+		if crash {
+			k.Archive = r.Bool(0.6) // states on disk without waiting for a clean stop
+		}
 	} else {
 		if r.Bool(0.6) {
 			k.MaxDiff = r.Range(2, 12)
@@ -139,7 +142,12 @@ func genOps(r *simcore.Rand, k Knobs, nnodes int, tier string, crash bool) []Op 
 	ops = append(ops, Op{Kind: "insert", A: r.Intn(nnodes), B: 0, C: r.Intn(1000)})
 	for len(ops) < n {
 		a, c := r.Intn(1<<20), r.Intn(1000)
-		switch r.Pick(10, 4, 3, 2, 2, 2, 2, 1) {
+		weights := []int{10, 4, 3, 2, 2, 2, 2, 1}
+		if crash {
+			// more durable states to crash on: commits, restarts, freezes
+			weights = []int{10, 3, 2, 2, 3, 2, 4, 1}
+		}
+		switch r.Pick(weights...) {
 		case 0:
 			if crash {
 				// C39 judges crashes, not the import corner cases of C38: mostly plain imports
@@ -436,7 +444,7 @@ func Checks() map[string]*simcore.Check {
 			Runs: map[string]int{"quick": 320, "thorough": 9600},
 			Gen:  gen(true), Decode: decode, Run: runC39, Shrink: shrink,
 			ProbeNames: []string{"no-loss-bound-evaluated", "head-above-durable-state", "rebooted-at-genesis", "rebooted-above-genesis", "rebooted-with-frozen-blocks",
-				"reimport-needed-setcanonical", "explicit-state-commit", "freeze-moved-blocks", "restart", "snapshot-flattened"},
+				"explicit-state-commit", "freeze-moved-blocks", "restart", "snapshot-flattened"},
 		},
 	}
 }
